@@ -182,6 +182,9 @@ def judge(version, explicit_kind, transport, typ, until, result, explicit) -> Li
         if n_args != shape["step_args"] or c[3]:
             out.append(dict(case, kind="step_arity", args=n_args, kwargs=list(c[3]), expected=shape["step_args"]))
             break
+    fin = [c for c in calls if c[1] in ("finalize", "stop")]
+    if len(fin) != 1:
+        out.append(dict(case, kind="old_simulator_not_stopped_exactly_once", stop_or_finalize_calls=len(fin)))
     unknown = [c[1] for c in calls if c[1] not in ("init", "create", "setup_done", "step", "get_data", "finalize", "stop")]
     if unknown:
         out.append(dict(case, kind="unknown_request_sent", requests=unknown[:3]))
